@@ -42,6 +42,12 @@ func main() {
 	// every group runs in its own worker process: the scheduler is process-global, and a
 	// crash or runtime-detected deadlock of the real goroutines (pass-through L part) must
 	// not take the other groups down
-	r.Parallel(append(snames, names...), func(g string) { r.RunShard(g, 0, nil) })
+	r.Parallel(append(append(snames, names...), "race"), func(g string) {
+		if g == "race" {
+			r.RunRacePass("C04")
+			return
+		}
+		r.RunShard(g, 0, nil)
+	})
 	r.Finish()
 }
